@@ -27,6 +27,11 @@ class SourceFileDoesNotExist(Exception):
         super().__init__(f"Source file {self.file} does not exist")
 
 
+class InvalidPutRequest(Exception):
+    def __init__(self, reason: str):
+        super().__init__(f"Invalid put request: {reason}")
+
+
 class FileNameTooLong(Exception):
     def __init__(self, file: Path):
         self.file = file
